@@ -78,6 +78,9 @@ def dictGet {β} (d : List (Str × β)) (k : Str) : Option β :=
 
 def keys {β} (d : List (Str × β)) : List Str := d.map (·.1)
 
+/-- `d.pop(k)` / `del d[k]` of a present key (keys of a dict are distinct) -/
+def dictErase {β} (d : List (Str × β)) (k : Str) : List (Str × β) := d.filter fun kv => kv.1 ≠ k
+
 /-! ## info -/
 
 abbrev Info := List (Str × Str)
@@ -343,14 +346,18 @@ def srrDefaultOffsets : List (Int × Int) := [(0, 2), (1, 2)]
 
 /-- `SRRConfig.from_array`: `cls(**{name: array[name]})`.  A raster array has no `warmup` /
 `subpixel_offsets`, the constructor's defaults apply.  Not modelled (`unmodelled`, never generated,
-counted as undetermined by the harness): a raster scan time that is zero or not finite (the warm-up
-becomes `np.round(±inf or nan).astype(int)`), and a spot array (the call succeeds with an
+counted as undetermined by the harness): a raster scan time that is zero, not finite or so small
+that 12.5 s are more than 2⁵² samples (the warm-up becomes `np.round(±inf or nan).astype(int)` or an
+integer the float cannot hold), and a spot array (the call succeeds with an
 array-valued `spotsize`, which `Config` here cannot hold). -/
 def srrFromArray (fl : Rat → Rat) : CfgArr → Except Err Config
   | .srr a b s w o => if o = [] then throw .valueError else pure (.srr (SRR.mk' fl a b s w o))
   | .raster a b c =>
     match c.toRat? with
-    | some s => if s = 0 then throw .unmodelled else pure (.srr (SRR.mk' fl a b s srrDefaultWarmup srrDefaultOffsets))
+    | some s =>
+      -- beyond 2⁵² samples the float quotient is no integer the conversion to `int` could keep (overflow above 2⁶³)
+      if s = 0 ∨ (2 : Rat) ^ 52 * s < srrDefaultWarmup ∧ 0 < s ∨ srrDefaultWarmup < -((2 : Rat) ^ 52) * s ∧ s < 0 then throw .unmodelled
+      else pure (.srr (SRR.mk' fl a b s srrDefaultWarmup srrDefaultOffsets))
     | none => throw .unmodelled
   | .spot .. => throw .unmodelled
 
@@ -449,7 +456,18 @@ structure PathInfo where
 
 def prod (l : List Nat) : Nat := l.foldl (· * ·) 1
 
-/-- `np.asanyarray(laser.data)` as `np.savez` does it -/
+/-- a dtype string in native byte order (the check runs on little-endian machines: `'>f8'` becomes
+`'<f8'`; `'<'`, `'|'` and `'='` forms are native) -/
+def nativeDtype : Str → Str
+  | '>' :: r => '<' :: r
+  | d => d
+
+def isNativeDtype (d : Str) : Bool := d.head? != some '>'
+
+/-- `np.asanyarray(laser.data)` as `np.savez` does it.  The layer list of an SRR laser is stacked into
+ONE new array: NumPy builds it in native byte order, so a `'>f8'` field of the layers is stored (and
+loaded) as `'<f8'` — same values, other dtype (known finding `C01-srr-byteorder`; `Laser.ok` asks for
+native field dtypes in SRR lasers).  The single array of a `Laser` is written as it is. -/
 def dataToArray (L : Laser) : Except Err DataArr :=
   match L.kind, L.layers with
   | .laser, [l] => pure ⟨L.fields, l.shape, l.cells⟩
@@ -457,7 +475,7 @@ def dataToArray (L : Laser) : Except Err DataArr :=
   | .srr, [] => throw .typeError
   | .srr, l :: ls =>
     if ls.all (·.shape == l.shape) then
-      pure ⟨L.fields, (ls.length + 1) :: l.shape, (l :: ls).flatMap (·.cells)⟩
+      pure ⟨L.fields.map fun f => (f.1, nativeDtype f.2), (ls.length + 1) :: l.shape, (l :: ls).flatMap (·.cells)⟩
     else throw .valueError       -- inhomogeneous shape
 
 /-- `n` consecutive chunks of `k` -/
@@ -594,14 +612,23 @@ def load (fl : Rat → Rat) (p : PathInfo) (f : NpzFile) : Except Err Laser := d
 
 /-! ## specification -/
 
-/-- what `load (save L)` must be: everything as it was; info with tabs→spaces, `File Path`
-replaced, `Name` / `File Version` added -/
+/-- the calibration dict a loaded laser must have: for every element of the data, in element order,
+the calibration the saved laser held **under that element's name** — wherever that entry stood in
+the saved laser's calibration dict (a Python dict keeps insertion order, and `laser.calibration` is a
+public attribute: entries are popped and re-inserted, the dict is reassigned, `rename` rebuilds it) -/
+def calByName (fields : List (Str × Str)) (cal : List (Str × Cal)) : List (Str × Cal) :=
+  fields.map fun f => (f.1, (dictGet cal f.1).getD Cal.default)
+
+/-- what `load (save L)` must be: everything as it was — data, element names and dtypes, configuration,
+every element with its own calibration (`calByName`: the order of the calibration dict is not part of
+the object, Python dicts compare as mappings) — info with tabs→spaces, `File Path` replaced,
+`Name` / `File Version` added -/
 def normalise (p : PathInfo) (ver : Str) (L : Laser) : Laser :=
-  { L with info := finishInfo p ver (infoSpec L.info) }
+  { L with cal := calByName L.fields L.cal, info := finishInfo p ver (infoSpec L.info) }
 
 /-- a laser loaded from a 0.6 file carries only its name -/
 def normaliseV06 (p : PathInfo) (ver : Str) (L : Laser) : Laser :=
-  { L with info := finishInfo p ver [(kName, (dictGet L.info kName).getD [])] }
+  { L with cal := calByName L.fields L.cal, info := finishInfo p ver [(kName, (dictGet L.info kName).getD [])] }
 
 /-- specification of loading a file that describes `L` in an old layout (`v06`: the 0.6 layout, else
 the 0.7 layout) and declares version `ver`: rejected with `ValueError` when `ver` is older than 0.6.0
@@ -614,10 +641,10 @@ def specOld (v06 : Bool) (p : PathInfo) (ver : Str) (L : Laser) : Except Err Las
     if r = -1 then .error .valueError
     else .ok (if v06 then normaliseV06 p ver L else normalise p ver L)
 
-/-- two lasers equal as Python objects: dicts compare without order -/
+/-- two lasers equal as Python objects: dicts (calibration, info) compare without order -/
 def Laser.same (a b : Laser) : Prop :=
-  a.kind = b.kind ∧ a.fields = b.fields ∧ a.layers = b.layers ∧ a.cal = b.cal ∧ a.config = b.config ∧
-    ∀ k, dictGet a.info k = dictGet b.info k
+  a.kind = b.kind ∧ a.fields = b.fields ∧ a.layers = b.layers ∧ (∀ k, dictGet a.cal k = dictGet b.cal k) ∧
+    a.config = b.config ∧ ∀ k, dictGet a.info k = dictGet b.info k
 
 /-- `n` generations of save → load -/
 def generations (fl : Rat → Rat) (ver time : Str) (p : PathInfo) : Nat → Laser → Except Err Laser
@@ -660,16 +687,20 @@ def layersOk (kind : Kind) (layers : List Layer) : Bool :=
 
 /-- a laser inside the property's quantifier: at least one element (a structured array without
 fields makes a `Laser` that `save` cannot write), element names without trailing NUL (distinct by
-construction of a structured dtype), one calibration per element in element order (what the
-constructors build), every calibration `Cal.ok`, configuration class matching the laser class and
-`Config.ok`, one layer or ≥ 2 layers of equal shape, packed info not ending in NUL -/
+construction of a structured dtype), exactly one calibration per element **in any dict order** (the
+keys of the calibration dict are distinct, each is an element, each element is a key), every
+calibration `Cal.ok`, configuration class matching the laser class and `Config.ok`, one layer or ≥ 2
+layers of equal shape, native byte order of every field of an SRR laser (the stacked array is native:
+known finding `C01-srr-byteorder`), packed info not ending in NUL -/
 def Laser.ok (L : Laser) : Bool :=
   !L.fields.isEmpty
   && (keys L.fields).all noNulEnd && decide (keys L.fields).Nodup
-  && keys L.cal == keys L.fields
+  && (decide (keys L.cal).Nodup && (keys L.cal).all (fun k => decide (k ∈ keys L.fields))
+      && (keys L.fields).all (fun k => decide (k ∈ keys L.cal)))
   && L.cal.all (·.2.ok)
   && (L.config.isSRR == (L.kind == .srr)) && L.config.ok
   && layersOk L.kind L.layers
+  && (L.kind != .srr || L.fields.all fun f => isNativeDtype f.2)
   && noNulEnd (packInfoRaw L.info)
 
 /-- the version string `save` writes: digits and dots, not older than 0.8.0 -/
@@ -691,5 +722,293 @@ def version06Ok (ver : Str) : Bool :=
 
 /-- hypothesis of the fixpoint theorem: no info value ends in NUL -/
 def infoNoNul (i : Info) : Bool := i.all fun kv => kv.1 == kFilePath || noNulEnd kv.2
+
+/-! ## histories: the public mutators of a laser between saves
+
+`laser.calibration` and `laser.info` are plain dicts, `laser.config` a plain object with attributes,
+two properties with setters (`warmup`, `subpixel_offsets`) and `set_equal_subpixel_offsets`; the
+calibrations are objects edited in place; `add` / `remove` / `rename` change the elements.  An `Op` is
+one such call, written from `laser.py`, `srr/srr.py`, `config.py`, `srr/config.py` and
+`calibration.py`; the state of the object after a history of them is what `npz.save` has to write. -/
+
+/-- an edit of one `Calibration` object in place -/
+inductive CalEdit
+  | intercept (f : Flt)
+  | gradient (f : Flt)
+  | unit (u : Str)
+  | rsq (o : Option Flt)
+  | error (o : Option Flt)
+  /-- the `points` setter: `_weights` is left as it is -/
+  | points (pts : List (Flt × Flt))
+  /-- `weights = "<name>"`: `_weights` is emptied -/
+  | weighting (w : Str)
+  /-- `weights = (name, array)`: ValueError unless there is one weight per point -/
+  | custom (w : Str) (ws : List Flt)
+  deriving DecidableEq, Repr
+
+def Cal.edit (c : Cal) : CalEdit → Except Err Cal
+  | .intercept f => pure { c with intercept := f }
+  | .gradient f => pure { c with gradient := f }
+  | .unit u => pure { c with unit := u }
+  | .rsq o => pure { c with rsq := o }
+  | .error o => pure { c with error := o }
+  | .points pts => pure { c with points := pts }
+  | .weighting w => pure { c with weighting := w, weights := [] }
+  | .custom w ws =>
+    if ws.length = c.points.length then pure { c with weighting := w, weights := ws } else throw .valueError
+
+/-- the `warmup` setter: `_warmup = np.round(seconds / scantime).astype(int)` -/
+def SRR.setWarmup (fl : Rat → Rat) (c : SRR) (seconds : Rat) : SRR :=
+  { c with warmupN := roundHalfEven (fl (seconds / c.scantime)) }
+
+/-- the `subpixel_offsets` setter -/
+def SRR.setOffsets (c : SRR) (offsets : List (Int × Int)) : SRR :=
+  let size := lcmList (offsets.map (·.2))
+  { c with subSize := size, subOffsets := offsets.map fun od => (od.1 * (size : Int)) / od.2 }
+
+/-- `set_equal_subpixel_offsets(width)`: offsets `0 .. width-1`, size `width` -/
+def SRR.setEqualOffsets (c : SRR) (w : Nat) : SRR :=
+  { c with subSize := w, subOffsets := (List.range w).map Int.ofNat }
+
+/-- the float quotient `seconds / scantime` rounds like the exact one: it is at most 2⁴⁰ in size and
+at least 2⁻¹⁰ away from every half-integer (one float division is within relative error 2⁻⁵³).
+The driver evaluates the warm-up setter exactly; a case where this fails is counted undetermined. -/
+def warmupDetermined (seconds scantime : Rat) : Bool :=
+  let q := seconds / scantime
+  let d := q - (q.floor : Rat) - 1 / 2
+  decide (0 < scantime) && decide (-(2 : Rat) ^ 40 ≤ q) && decide (q ≤ (2 : Rat) ^ 40)
+    && (decide (1 / (2 : Rat) ^ 10 ≤ d) || decide (d ≤ -(1 / (2 : Rat) ^ 10)))
+
+/-- an assignment to an attribute (or a call of a mutator) of `laser.config` -/
+inductive CfgOp
+  | spotsize (f : Flt)
+  | speed (f : Flt)
+  | scantime (f : Flt)
+  | spotsizeY (f : Flt)
+  /-- `config.warmup = seconds` (exact value of the float) -/
+  | warmup (seconds : Rat)
+  /-- `config.subpixel_offsets = offsets` -/
+  | offsets (offsets : List (Int × Int))
+  /-- `config.set_equal_subpixel_offsets(width)` -/
+  | equalOffsets (width : Nat)
+  deriving DecidableEq, Repr
+
+/-- the constructor call `Config(..)` / `SpotConfig(..)` / `SRRConfig(..)`: the arguments are the
+fields of the array form -/
+def Config.ofArgs (fl : Rat → Rat) : CfgArr → Except Err Config
+  | .raster a b c => pure (.raster a b c)
+  | .spot a b => pure (.spot a b)
+  | .srr a b s w o => if o = [] then throw .valueError else pure (.srr (SRR.mk' fl a b s w o))
+
+/-- attributes a class does not have, a non-positive or non-finite SRR scan time, an empty offset
+list are not modelled (never generated; counted undetermined) -/
+def Config.apply (fl : Rat → Rat) : Config → CfgOp → Except Err Config
+  | .raster _ b c, .spotsize f => pure (.raster f b c)
+  | .raster a _ c, .speed f => pure (.raster a f c)
+  | .raster a b _, .scantime f => pure (.raster a b f)
+  | .spot _ b, .spotsize f => pure (.spot f b)
+  | .spot a _, .spotsizeY f => pure (.spot a f)
+  | .srr c, .spotsize f => pure (.srr { c with spotsize := f })
+  | .srr c, .speed f => pure (.srr { c with speed := f })
+  | .srr c, .scantime f =>
+    match f.toRat? with
+    | some q => if 0 < q then pure (.srr { c with scantime := q }) else throw .unmodelled
+    | none => throw .unmodelled
+  | .srr c, .warmup s => pure (.srr (c.setWarmup fl s))
+  | .srr c, .offsets o => if o = [] then throw .unmodelled else pure (.srr (c.setOffsets o))
+  | .srr c, .equalOffsets w => if w = 0 then throw .unmodelled else pure (.srr (c.setEqualOffsets w))
+  | _, _ => throw .unmodelled
+
+/-- delete the positions `idx` of a record -/
+def dropIdx {α} (idx : List Nat) (l : List α) : List α :=
+  (l.zipIdx.filter fun xi => !idx.contains xi.2).map (·.1)
+
+/-- positions of the fields named in `names` -/
+def fieldIdx (fields : List (Str × Str)) (names : List Str) : List Nat :=
+  (fields.zipIdx.filter fun fi => names.contains fi.1.1).map (·.2)
+
+/-- one call on the laser object between two saves -/
+inductive Op
+  /-- `laser.calibration[k] = c`: a present key keeps its place, a new one goes last -/
+  | calSet (k : Str) (c : Cal)
+  /-- `laser.calibration.pop(k)` -/
+  | calPop (k : Str)
+  /-- `c = laser.calibration.pop(k); laser.calibration[k] = c`: the entry moves to the end -/
+  | calMoveEnd (k : Str)
+  /-- `laser.calibration = {k: laser.calibration[k] for k in order}` -/
+  | calReorder (order : List Str)
+  /-- an edit of `laser.calibration[k]` in place -/
+  | calEdit (k : Str) (e : CalEdit)
+  | infoSet (k v : Str)
+  | infoPop (k : Str)
+  /-- `laser.info = dict(items)` -/
+  | infoAssign (i : Info)
+  | cfg (o : CfgOp)
+  /-- `laser.config = <a new configuration object>` -/
+  | cfgAssign (a : CfgArr)
+  /-- `laser.rename(names)` -/
+  | rename (names : List (Str × Str))
+  /-- `laser.add(name, data, calibration)`: `vals` holds, per layer, one value per pixel -/
+  | add (name dtype : Str) (vals : List (List Int)) (c : Option Cal)
+  /-- `laser.remove(names)` -/
+  | remove (names : List Str)
+  /-- `laser.data = <the same image with its fields in another order>` (every layer of an SRR laser) -/
+  | dataReorder (order : List Str)
+  deriving DecidableEq, Repr
+
+/-- position of the field called `n` -/
+def fieldPos (fields : List (Str × Str)) (n : Str) : Option Nat :=
+  match fields.findIdx? fun f => f.1 == n with
+  | some i => some i
+  | none => none
+
+def renameKey (names : List (Str × Str)) (k : Str) : Str := (dictGet names k).getD k
+
+/-- what the call does to the object; `keyError` as Python raises it, `unmodelled` where the model
+declines (duplicate field names, shape mismatches, removing every element, ...) -/
+def applyOp (fl : Rat → Rat) (L : Laser) : Op → Except Err Laser
+  | .calSet k c => pure { L with cal := dictInsert L.cal k c }
+  | .calPop k =>
+    match dictGet L.cal k with
+    | none => throw .keyError
+    | some _ => pure { L with cal := dictErase L.cal k }
+  | .calMoveEnd k =>
+    match dictGet L.cal k with
+    | none => throw .keyError
+    | some c => pure { L with cal := dictInsert (dictErase L.cal k) k c }
+  | .calReorder order => do
+    let d ← order.mapM fun k => (getOr .keyError (dictGet L.cal k)).map fun c => (k, c)
+    pure { L with cal := dictOfList d }
+  | .calEdit k e =>
+    match dictGet L.cal k with
+    | none => throw .keyError
+    | some c => do pure { L with cal := dictInsert L.cal k (← c.edit e) }
+  | .infoSet k v => pure { L with info := dictInsert L.info k v }
+  | .infoPop k =>
+    match dictGet L.info k with
+    | none => throw .keyError
+    | some _ => pure { L with info := dictErase L.info k }
+  | .infoAssign i => pure { L with info := dictOfList i }
+  | .cfg o => do pure { L with config := ← L.config.apply fl o }
+  | .cfgAssign a => do pure { L with config := ← Config.ofArgs fl a }
+  | .rename names =>
+    let fields := L.fields.map fun f => (renameKey names f.1, f.2)
+    if (keys fields).Nodup then
+      pure { L with fields := fields, cal := dictOfList (L.cal.map fun kc => (renameKey names kc.1, kc.2)) }
+    else throw .unmodelled
+  | .add name dtype vals c =>
+    if name ∈ keys L.fields ∨ name = [] ∨ vals.length ≠ L.layers.length
+        ∨ !((L.layers.zip vals).all fun lv => lv.1.cells.length == lv.2.length) then throw .unmodelled
+    else
+      pure { L with
+        fields := L.fields ++ [(name, dtype)]
+        layers := (L.layers.zip vals).map fun lv => { lv.1 with cells := (lv.1.cells.zip lv.2).map fun rv => rv.1 ++ [rv.2] }
+        cal := dictInsert L.cal name (c.getD Cal.default) }
+  | .remove names =>
+    if !(names.all fun n => decide (n ∈ keys L.fields)) ∨ (L.fields.all fun f => names.contains f.1) then throw .unmodelled
+    else
+      -- `drop_fields` first, then one `pop` per name (KeyError on a key that is not there)
+      let idx := fieldIdx L.fields names
+      let data : Laser := { L with
+        fields := dropIdx idx L.fields
+        layers := L.layers.map fun l => { l with cells := l.cells.map (dropIdx idx) } }
+      names.foldlM (fun (M : Laser) n =>
+        match dictGet M.cal n with
+        | none => throw Err.keyError
+        | some _ => pure { M with cal := dictErase M.cal n }) data
+  | .dataReorder order =>
+    match order.mapM (fieldPos L.fields) with
+    | none => throw .unmodelled
+    | some idx =>
+      if order.length ≠ L.fields.length ∨ ¬ order.Nodup then throw .unmodelled
+      else
+        pure { L with
+          fields := idx.filterMap fun i => L.fields[i]?
+          layers := L.layers.map fun l => { l with cells := l.cells.map fun r => idx.filterMap fun i => r[i]? } }
+
+/-- the constructor call the harness makes: `Laser(data, calibration, config, info)` or `SRRLaser(..)` -/
+def construct' (fl : Rat → Rat) (kind : Kind) (fields : List (Str × Str)) (layers : List Layer)
+    (cal : List (Str × Cal)) (config : CfgArr) (info : Info) : Except Err Laser := do
+  let c ← Config.ofArgs fl config
+  pure (mkLaser kind fields layers (dictOfList cal) c (dictOfList info))
+
+/-- one step of a history: a call on the current object, `npz.save(path, current)` followed by
+`npz.load` of the file written, or going on with the object the last load returned -/
+inductive Step
+  | op (o : Op)
+  | save (p : PathInfo)
+  | adopt
+  deriving DecidableEq, Repr
+
+/-- **mechanism**: the history run through `save` and `load`; one result per `save` step; the first
+exception ends the history (its entry is the last one) -/
+def runHistory (fl : Rat → Rat) (ver time : Str) : List Step → Laser → Option Laser → List (Except Err Laser)
+  | [], _, _ => []
+  | .op o :: r, cur, last =>
+    match applyOp fl cur o with
+    | .ok c => runHistory fl ver time r c last
+    | .error e => [.error e]
+  | .save p :: r, cur, _ =>
+    match save fl ver time cur >>= load fl p with
+    | .ok l => .ok l :: runHistory fl ver time r cur (some l)
+    | .error e => [.error e]
+  | .adopt :: r, _, last =>
+    match last with
+    | some l => runHistory fl ver time r l last
+    | none => [.error .unmodelled]
+
+/-- **specification**: no file is involved; every `save` step yields `normalise` of the state the
+object has at that moment -/
+def specHistory (fl : Rat → Rat) (ver : Str) : List Step → Laser → Option Laser → List (Except Err Laser)
+  | [], _, _ => []
+  | .op o :: r, cur, last =>
+    match applyOp fl cur o with
+    | .ok c => specHistory fl ver r c last
+    | .error e => [.error e]
+  | .save p :: r, cur, _ => .ok (normalise p ver cur) :: specHistory fl ver r cur (some (normalise p ver cur))
+  | .adopt :: r, _, last =>
+    match last with
+    | some l => specHistory fl ver r l last
+    | none => [.error .unmodelled]
+
+/-- every state that is saved along the history is inside the quantifier (one flag per `save` step) -/
+def historyOks (fl : Rat → Rat) (ver : Str) : List Step → Laser → Option Laser → List Bool
+  | [], _, _ => []
+  | .op o :: r, cur, last =>
+    match applyOp fl cur o with
+    | .ok c => historyOks fl ver r c last
+    | .error _ => []
+  | .save p :: r, cur, _ => cur.ok :: historyOks fl ver r cur (some (normalise p ver cur))
+  | .adopt :: r, _, last =>
+    match last with
+    | some l => historyOks fl ver r l last
+    | none => []
+
+def historyOk (fl : Rat → Rat) (ver : Str) (steps : List Step) (cur : Laser) (last : Option Laser) : Bool :=
+  (historyOks fl ver steps cur last).all id
+
+/-- the warm-up an operation sets is decided by its exact quotient (`warmupDetermined`) -/
+def opDetermined (cur : Laser) : Op → Bool
+  | .cfg (.warmup s) =>
+    match cur.config with
+    | .srr c => warmupDetermined s c.scantime
+    | _ => true
+  | .cfgAssign (.srr _ _ s w _) => warmupDetermined w s
+  | _ => true
+
+/-- every warm-up set along the history is decided by its exact quotient: then the driver's exact
+evaluation (`fl = id`) and the float evaluation of the code agree on the state -/
+def stepsDetermined : List Step → Laser → Option Laser → Bool
+  | [], _, _ => true
+  | .op o :: r, cur, last =>
+    opDetermined cur o &&
+      (match applyOp id cur o with
+        | .ok c => stepsDetermined r c last
+        | .error _ => true)
+  | .save _ :: r, cur, _ => stepsDetermined r cur (some cur)
+  | .adopt :: r, _, last =>
+    match last with
+    | some l => stepsDetermined r l last
+    | none => true
 
 end Pew.Npz
